@@ -250,6 +250,28 @@ var convOpts = []bindnode.Option{
 		func(v interface{}) ([]byte, error) { return hex.DecodeString(v.(*Blob).Hex) }),
 }
 
+// UKM is a kinded union whose map and list members are structs with optional fields: what the
+// representation says about its size must be what it iterates.
+type OptS struct {
+	A *string
+	C string
+}
+type OptT struct {
+	X int64
+	Y *int64
+}
+type UKM struct {
+	S *OptS
+	T *OptT
+	N *int64
+}
+type HasUKM struct {
+	A UKM
+	B UKM
+	C UKM
+	D UKM
+}
+
 // UK2 is a kinded union whose members include structs that are not maps in representation.
 type UK2 struct {
 	T *Tuple
@@ -323,6 +345,10 @@ type MapOpt {String:OptV}
 type HasMapOpt struct { M MapOpt }
 type OptColl struct { L optional StrList  B nullable Bytes  M optional OMap  NL nullable IntList  OB optional Bytes  Z Int }
 type Conv struct { T Int  OT optional Int  NT nullable Int  G String  B Bytes  L [Int] }
+type OptS struct { A optional String  C String }
+type OptT struct { X Int  Y optional Int } representation tuple
+type UKM union { | OptS map | OptT list | Int int } representation kinded
+type HasUKM struct { A UKM  B UKM  C UKM  D UKM }
 type UK2 union { | Tuple list | Joined string | Int int } representation kinded
 type HasUK2 struct { A UK2  B UK2  C UK2  D UK2 }
 type UList [Int]
@@ -525,6 +551,15 @@ var vocab = []vtype{
 			},
 			func() interface{} {
 				return &Conv{T: Celsius{math.MinInt64}, G: Tag{[]string{""}}, B: Blob{""}, L: []Celsius{}}
+			},
+		}},
+	{name: "HasUKM", schema: "HasUKM", ptr: func() interface{} { return (*HasUKM)(nil) },
+		vals: []func() interface{}{
+			func() interface{} {
+				return &HasUKM{A: UKM{S: &OptS{A: sp("a"), C: "c"}}, B: UKM{T: &OptT{X: 1, Y: ip(2)}}, C: UKM{N: ip(3)}, D: UKM{S: &OptS{A: sp(""), C: ""}}}
+			},
+			func() interface{} {
+				return &HasUKM{A: UKM{S: &OptS{C: "only c"}}, B: UKM{T: &OptT{X: 7}}, C: UKM{N: ip(0)}, D: UKM{T: &OptT{X: 0, Y: ip(0)}}}
 			},
 		}},
 	{name: "OptColl", schema: "OptColl", ptr: func() interface{} { return (*OptColl)(nil) },
